@@ -491,7 +491,9 @@ pub fn registry() -> Vec<Entry> {
     ent!(v, "[u16;5]", [u16; 5], eq);
     {
         ent!(v, "HashSet<u32>", HashSet<u32>, eq, set_like = true);
-        v.last_mut().unwrap().dec = dec_as_set::<HashSet<u32>>;
+        let e = v.last_mut().unwrap();
+        e.dec = dec_as_set::<HashSet<u32>>;
+        e.gen = |r, fx| crate::c05::roundtrip_x::<HashSet<u32>>(&Gen::gen(r, fx), |a, b| a == b, String::new(), true);
     }
     ent!(v, "DateTime<Utc>", chrono::DateTime<chrono::Utc>, eq);
     ent!(v, "IpAddr", std::net::IpAddr, eq);
